@@ -23,8 +23,20 @@ def data_triples():
     return st.lists(st.tuples(s, st.sampled_from(PREDS), o).map(list), max_size=8, unique_by=repr)
 
 
-def datasets():
-    return st.fixed_dictionaries({"default": data_triples(), "g1": data_triples(), "g2": st.one_of(st.just([]), data_triples())})
+@st.composite
+def datasets(draw):
+    g1 = draw(data_triples())
+    k = draw(st.integers(0, 3))
+    if k == 0:
+        g2 = []
+    elif k == 1 and g1:
+        # the second graph shares triples with the first (the same bindings then arise in both graphs)
+        keep = draw(st.lists(st.sampled_from(g1), min_size=1, max_size=len(g1), unique_by=repr))
+        extra = draw(data_triples())
+        g2 = keep + [t for t in extra if t not in keep][:3]
+    else:
+        g2 = draw(data_triples())
+    return {"default": draw(data_triples()), "g1": g1, "g2": g2}
 
 
 # ---------------------------------------------------------------- rendering
@@ -228,9 +240,9 @@ def patterns(draw, depth=3, dataset=False, pool=None):
     if depth <= 0 or draw(st.integers(0, 9)) < 1:
         # the empty group { } (one empty solution) is a legal leaf too
         return draw(st.one_of(bgp(pool=pool), bgp(pool=pool), bgp(pool=pool), bgp(pool=pool), values_pattern(), st.just(["bgp", []])))
-    kinds = ["join", "opt", "opt-filter", "union", "minus", "filter", "bind", "sub", "join-bgp"]
+    kinds = ["join", "opt", "opt-filter", "union", "minus", "filter", "bind", "sub", "join-bgp", "join-values"]
     if dataset:
-        kinds += ["graph", "graph-var"]
+        kinds += ["graph", "graph-var", "graph-var-exists", "graph-var-exists"]
     k = draw(st.sampled_from(kinds))
     A = draw(patterns(depth - 1, dataset, pool))
     if k in ("join", "union", "minus", "opt", "opt-filter"):
@@ -242,6 +254,28 @@ def patterns(draw, depth=3, dataset=False, pool=None):
         return [k, A, B]
     if k == "join-bgp":
         return ["join", A, draw(bgp(pool=pool))]
+    if k == "join-values":
+        # inline data over variables the left side binds, with values taken from the data; now and then a row is written twice
+        scope = sorted(ref.in_scope(A))
+        if not scope:
+            return A
+        vs = draw(st.lists(st.sampled_from(scope), min_size=1, max_size=2, unique=True))
+        terms = [x for t in (pool or []) for x in t if x[0] != "b"] + NODES[:3] + LITS[:4]
+        rows = draw(st.lists(st.lists(st.sampled_from(terms), min_size=len(vs), max_size=len(vs)), min_size=1, max_size=3))
+        if draw(st.booleans()):
+            rows.append(list(rows[0]))
+        return ["join", A, ["values", vs, rows]]
+    if k == "graph-var-exists":
+        # (NOT) EXISTS evaluated inside GRAPH ?g: its pattern is matched against the graph ?g ranges over, per graph
+        if draw(st.booleans()):
+            inner = draw(bgp(pool=pool))
+            e = [draw(st.sampled_from(["exists", "notexists"])), draw(bgp(pool=pool))]
+        else:
+            # correlated: the same subject must (not) have another property in the graph at hand
+            inner = ["bgp", [[["v", "a"], draw(st.sampled_from(PREDS)), ["v", "b"]]]]
+            e = [draw(st.sampled_from(["exists", "notexists"])),
+                 ["bgp", [[["v", "a"], draw(st.sampled_from(PREDS)), draw(st.sampled_from([["v", "c"], ["v", "b"]]))]]]]
+        return ["graph", ["v", draw(st.sampled_from(["d", "e"]))], ["filter", e, inner]]
     if k == "filter":
         return ["filter", draw(exprs(2)), A]
     if k == "bind":
